@@ -63,6 +63,13 @@ pub fn check_short(en: &EnumEntry, bytes: &[u8]) -> CheckResult {
 }
 
 pub fn replay(check: &str, i: &Value) -> Option<CheckResult> {
+    if check == "via-sequence" {
+        return Some(crate::props::c05::check_seq(&crate::props::c05::Model::new(), &serde_json::from_value(i.clone()).ok()?).map_err(|mut v| {
+            v.check = "via-sequence".into();
+            v.sig = v.sig.replacen("C05 ", "C15 via-sequence ", 1);
+            v
+        }));
+    }
     let ens = enums();
     let tys = types();
     let table = enum_table();
@@ -160,10 +167,46 @@ pub fn run(tier: Tier) -> i32 {
         st.enumerated(n, nt);
     });
     stats.merge(s);
+    // received packets through a real exchange: every sequence x every form of the terminal's acknowledgement (empty, with a
+    // data block that looks like a reply, extended length) x each reply of the command's reply set as the first packet: the
+    // item handed to the caller is the parse of the packet that was sent (the C05 trace oracle, reported under C15 because
+    // "no received packet can be mistaken for a different kind of reply" is this property's last sentence)
+    {
+        use crate::props::c05::{check_seq, Model, Pools, SeqCase, ACKS};
+        let m = Model::new();
+        let pools = Pools::build(&ctx, &m, 6, GenCfg::small());
+        let s = ctx.shards("via-sequence", m.seqs.len() as u64, |i, _seed, st| {
+            let s = &m.seqs[i as usize];
+            let owned = m.owned(s);
+            let cmd = hex(pools.pick(s.cmd, 0));
+            let fin: Vec<usize> = (0..owned.len()).filter(|k| m.is_final(s, owned[*k].0, owned[*k].1)).collect();
+            for (k, o) in owned.iter().enumerate() {
+                for (ai, a) in ACKS.iter().enumerate() {
+                    let mut replies = vec![hex(pools.pick(o.3, (k * 37 + ai) as u16 * 16))];
+                    if !m.is_final(s, o.0, o.1) {
+                        let Some(f) = fin.first() else { continue };
+                        replies.push(hex(pools.pick(owned[*f].3, ai as u16 * 16)));
+                    }
+                    let c = SeqCase { seq: s.name.to_string(), cmd: cmd.clone(), replies, trailing: "061e016c".into(), chunks: if ai % 2 == 0 { vec![] } else { vec![1] }, ack: Some(a.to_string()) };
+                    st.case(ai > 0, fnv(&serde_json::to_vec(&c).unwrap()));
+                    st.class("via-sequence:acknowledgement-form-x-first-reply");
+                    ctx.record(
+                        check_seq(&m, &c).map_err(|mut v| {
+                            v.check = "via-sequence".into();
+                            v.sig = v.sig.replacen("C05 ", "C15 via-sequence ", 1);
+                            v
+                        }),
+                        st,
+                    );
+                }
+            }
+        });
+        stats.merge(s);
+    }
     stats.exhaustive_parts = vec!["17 reply parsers x all 65 536 (class, instr) pairs, each with every prepared body".into()];
     ctx.finish(
         stats,
-        "enumeration: every reply enum x every (class, instr) pair x bodies {empty, canonical bodies of each variant's packet type, random}, owned pairs also with further bytes behind the packet in the same buffer (a following packet, field-like bytes, random); plus inputs shorter than two bytes. Oracle from an independent enum -> control field table: foreign pair => Err; owned pair => identical to the variant's packet type decoding the same bytes. non-trivial = pair owned by the enum or sharing class or instr with an owned pair; distinct by (enum, pair, body) by construction",
+        "enumeration: every reply enum x every (class, instr) pair x bodies {empty, canonical bodies of each variant's packet type, random}, owned pairs also with further bytes behind the packet in the same buffer (a following packet, field-like bytes, random); plus inputs shorter than two bytes; plus, through the real sequences, every form of the terminal's acknowledgement (empty / with a reply-like data block / extended length) in front of each reply of the reply set (trace oracle of C05). Oracle from an independent enum -> control field table: foreign pair => Err; owned pair => identical to the variant's packet type decoding the same bytes. non-trivial = pair owned by the enum or sharing class or instr with an owned pair; distinct by (enum, pair, body) by construction",
         &["registry::enum_table() (DESIGN.md Appendix B) is the independent statement of each command's reply set"],
         true,
     )
